@@ -832,6 +832,14 @@ func (e *SpecEnv) evalCall(n *Node) TV {
 			sfail("funcid: unknown function %s", full)
 		}
 		return TV{V: &FuncV{Fn: fn, Sym: e.ex.eng.funcID(fn)}, T: fn.Signature}
+	case "as_nonnil":
+		// the pointer held by an interface value is not nil (excludes typed-nil payloads)
+		x := e.eval(args[0])
+		iv, ok := x.V.(*IfaceV)
+		if !ok {
+			sfail("as_nonnil(interface)")
+		}
+		return boolTV(Neq(Rg(iv.Data), IntConst(0)))
 	case "samebase":
 		a, b := e.eval(args[0]).V.(*SliceV), e.eval(args[1]).V.(*SliceV)
 		return boolTV(And(Eq(a.Base, b.Base), Eq(a.Off, b.Off)))
